@@ -159,6 +159,8 @@ def x12n_document(param, src_file, fd_997, fd_html,
                 icvn = seg.get_value('ISA12')
                 errh.handle_errors(src.pop_errors())
             elif seg.get_seg_id() == 'IEA':
+                # the reader's errors of the IEA itself are not errors of the segment before it
+                errh.at_trailer(errh.cur_isa_node)
                 errh.handle_errors(src.pop_errors())
                 errh.close_isa_loop(node, seg, src)
                 # Generate 997
@@ -212,6 +214,7 @@ def x12n_document(param, src_file, fd_997, fd_html,
                 errh.add_seg(node, seg, src.get_seg_count(), src.get_cur_line(), src.get_ls_id())
                 errh.handle_errors(src.pop_errors())
             elif seg.get_seg_id() == 'GE':
+                errh.at_trailer(errh.cur_gs_node)
                 errh.handle_errors(src.pop_errors())
                 errh.close_gs_loop(node, seg, src)
             elif seg.get_seg_id() == 'ST':
